@@ -313,3 +313,384 @@ Proof.
   - apply N.ltb_ge in E. assert (Hz : recs s = []) by (destruct (recs s); [reflexivity|cbn in E; lia]).
     rewrite Hz. unfold set_root at 1 3. cbn [h_node_size h_root]. rewrite W2. reflexivity.
 Qed.
+
+(* ============================================================================================ *)
+(* 4. the record list                                                                            *)
+
+Definition hashes (rs : list rec) : list N := map fst rs.
+
+Fixpoint lookup_rec (h : N) (rs : list rec) : option bytes :=
+  match rs with
+  | [] => None
+  | r :: t => if fst r =? h then Some (snd r) else lookup_rec h t
+  end.
+
+Lemma lookup_rec_none h rs : lookup_rec h rs = None <-> ~ In h (hashes rs).
+Proof.
+  induction rs as [|r rs IH]; cbn [lookup_rec hashes map In]; [tauto|].
+  destruct (fst r =? h) eqn:E.
+  - apply N.eqb_eq in E. split; [discriminate|]. intro H. exfalso. apply H. left. exact E.
+  - apply N.eqb_neq in E. fold (hashes rs). rewrite IH. tauto.
+Qed.
+
+Lemma lookup_rec_app h a b :
+  lookup_rec h (a ++ b) = match lookup_rec h a with Some v => Some v | None => lookup_rec h b end.
+Proof.
+  induction a as [|r a IH]; cbn [app lookup_rec]; [reflexivity|].
+  destruct (fst r =? h); [reflexivity|exact IH].
+Qed.
+
+(* find_index: decomposition of the list at the first record with the hash *)
+Lemma find_index_shift rs h i :
+  find_index rs h i = match find_index rs h 0 with Some j => Some (i + j)%nat | None => None end.
+Proof.
+  revert i. induction rs as [|r rs IH]; intro i; cbn [find_index]; [reflexivity|].
+  destruct (fst r =? h); [f_equal; lia|].
+  rewrite (IH (S i)), (IH 1%nat). destruct (find_index rs h 0); [f_equal; lia|reflexivity].
+Qed.
+
+Lemma find_index_some rs h j : find_index rs h 0 = Some j ->
+  exists pre r post, rs = pre ++ r :: post /\ j = List.length pre /\ fst r = h /\ ~ In h (hashes pre).
+Proof.
+  revert j. induction rs as [|x rs IH]; intro j; cbn [find_index]; [discriminate|].
+  destruct (fst x =? h) eqn:E.
+  - intro H. inversion H; subst. apply N.eqb_eq in E.
+    exists [], x, rs. repeat split; auto.
+  - rewrite find_index_shift. destruct (find_index rs h 0) as [j'|] eqn:F; [|discriminate].
+    intro H. inversion H; subst.
+    destruct (IH j' eq_refl) as (pre & r & post & -> & -> & Hr & Hn).
+    exists (x :: pre), r, post. repeat split; auto.
+    cbn [hashes map In]. apply N.eqb_neq in E. intros [A|A]; [contradiction|]. apply Hn. exact A.
+Qed.
+
+Lemma find_index_none rs h : find_index rs h 0 = None <-> ~ In h (hashes rs).
+Proof.
+  induction rs as [|x rs IH]; cbn [find_index hashes map In]; [tauto|].
+  destruct (fst x =? h) eqn:E.
+  - apply N.eqb_eq in E. split; [discriminate|]. intro H. exfalso. apply H. left. exact E.
+  - apply N.eqb_neq in E. rewrite find_index_shift. fold (hashes rs).
+    destruct (find_index rs h 0) eqn:F.
+    + split; [discriminate|]. intro H. exfalso. destruct IH as [_ IH2].
+      assert (~ In h (hashes rs)) by tauto. specialize (IH2 H0). discriminate.
+    + destruct IH as [IH1 _]. specialize (IH1 eq_refl). tauto.
+Qed.
+
+Lemma find_index_lookup rs h :
+  lookup_rec h rs = match find_index rs h 0 with Some j => Some (snd (nth j rs (0, []))) | None => None end.
+Proof.
+  induction rs as [|x rs IH]; cbn [find_index lookup_rec]; [reflexivity|].
+  destruct (fst x =? h); [reflexivity|].
+  rewrite find_index_shift, IH. destruct (find_index rs h 0); reflexivity.
+Qed.
+
+Lemma firstn_exact {A} (a b : list A) : firstn (List.length a) (a ++ b) = a.
+Proof. rewrite firstn_app, firstn_all, Nat.sub_diag. cbn [firstn]. apply app_nil_r. Qed.
+Lemma skipn_exact {A} (a b : list A) : skipn (List.length a) (a ++ b) = b.
+Proof. rewrite skipn_app, skipn_all, Nat.sub_diag. reflexivity. Qed.
+Lemma skipn_S_exact {A} (a : list A) x b : skipn (S (List.length a)) (a ++ x :: b) = b.
+Proof.
+  replace (S (List.length a)) with (List.length (a ++ [x])) by (rewrite app_length; cbn; lia).
+  replace (a ++ x :: b) with ((a ++ [x]) ++ b) by (rewrite <- app_assoc; reflexivity).
+  apply skipn_exact.
+Qed.
+
+(* insertRecordSorted as a recursive insertion *)
+Lemma find_insert_pos_shift rs h i : find_insert_pos rs h i = (i + find_insert_pos rs h 0)%nat.
+Proof.
+  revert i. induction rs as [|r rs IH]; intro i; cbn [find_insert_pos]; [lia|].
+  destruct (h <=? fst r); [lia|]. rewrite (IH (S i)), (IH 1%nat). lia.
+Qed.
+
+Lemma insert_sorted_rec rs r :
+  insert_sorted rs r =
+  match rs with
+  | [] => [r]
+  | x :: t => if fst r <=? fst x then r :: x :: t else x :: insert_sorted t r
+  end.
+Proof.
+  unfold insert_sorted. destruct rs as [|x t]; [reflexivity|].
+  cbn [find_insert_pos]. destruct (fst r <=? fst x); [reflexivity|].
+  rewrite find_insert_pos_shift. cbn [Nat.add firstn skipn app]. reflexivity.
+Qed.
+
+Lemma insert_sorted_perm rs r : Permutation (insert_sorted rs r) (r :: rs).
+Proof.
+  induction rs as [|x t IH]; rewrite insert_sorted_rec; [reflexivity|].
+  destruct (fst r <=? fst x); [reflexivity|].
+  etransitivity; [apply perm_skip; exact IH|apply perm_swap].
+Qed.
+
+Lemma insert_sorted_length rs r : List.length (insert_sorted rs r) = S (List.length rs).
+Proof. apply (Permutation_length (insert_sorted_perm rs r)). Qed.
+
+Lemma insert_sorted_lookup_other rs r h : fst r <> h -> lookup_rec h (insert_sorted rs r) = lookup_rec h rs.
+Proof.
+  intro Hn. induction rs as [|x t IH]; rewrite insert_sorted_rec.
+  - cbn [lookup_rec]. apply N.eqb_neq in Hn. rewrite Hn. reflexivity.
+  - destruct (fst r <=? fst x).
+    + cbn [lookup_rec]. apply N.eqb_neq in Hn. rewrite Hn. reflexivity.
+    + cbn [lookup_rec]. rewrite IH. reflexivity.
+Qed.
+
+Lemma insert_sorted_lookup_new rs r : ~ In (fst r) (hashes rs) ->
+  lookup_rec (fst r) (insert_sorted rs r) = Some (snd r).
+Proof.
+  induction rs as [|x t IH]; intro Hn; rewrite insert_sorted_rec.
+  - cbn [lookup_rec]. rewrite N.eqb_refl. reflexivity.
+  - destruct (fst r <=? fst x).
+    + cbn [lookup_rec]. rewrite N.eqb_refl. reflexivity.
+    + cbn [lookup_rec]. cbn [hashes map In] in Hn.
+      destruct (fst x =? fst r) eqn:E; [apply N.eqb_eq in E; exfalso; apply Hn; left; exact E|].
+      apply IH. intro A. apply Hn. right. exact A.
+Qed.
+
+Definition sorted_h (rs : list rec) : Prop := StronglySorted N.le (hashes rs).
+
+Lemma insert_sorted_sorted rs r : sorted_h rs -> sorted_h (insert_sorted rs r).
+Proof.
+  unfold sorted_h. induction rs as [|x t IH]; intro H; rewrite insert_sorted_rec.
+  - cbn. constructor; constructor.
+  - cbn [hashes map] in H. inversion H as [|a l Ht Hall]; subst.
+    destruct (fst r <=? fst x) eqn:E.
+    + apply N.leb_le in E. cbn [hashes map]. constructor; [exact H|].
+      constructor; [exact E|]. eapply Forall_impl; [|exact Hall]. intros y Hy. cbn in Hy. lia.
+    + apply N.leb_gt in E. cbn [hashes map]. constructor; [apply IH; exact Ht|].
+      fold (hashes (insert_sorted t r)).
+      assert (P : Permutation (hashes (insert_sorted t r)) (fst r :: hashes t))
+        by (unfold hashes; apply (Permutation_map fst (insert_sorted_perm t r))).
+      eapply Permutation_Forall; [symmetry; exact P|]. constructor; [lia|exact Hall].
+Qed.
+
+Lemma sorted_remove (a : list rec) x b : sorted_h (a ++ x :: b) -> sorted_h (a ++ b).
+Proof.
+  unfold sorted_h, hashes. rewrite !map_app. cbn [map].
+  induction a as [|y a IH]; cbn [map app]; intro H.
+  - inversion H; assumption.
+  - inversion H as [|p l Hs Hall]; subst. constructor; [apply IH; exact Hs|].
+    rewrite Forall_app in *. destruct Hall as [H1 H2]. inversion H2; subst. split; assumption.
+Qed.
+
+Lemma hashes_update (a : list rec) x v b : hashes (a ++ (fst x, v) :: b) = hashes (a ++ x :: b).
+Proof. unfold hashes. rewrite !map_app. reflexivity. Qed.
+
+(* ============================================================================================ *)
+(* 5. the modes only differ in the lazy bookkeeping                                              *)
+
+Definition lazy_mode (m : mode) : bool :=
+  match m with MLazy _ _ | MIncremental _ _ => true | _ => false end.
+
+Definition strip_bt (s : bt2) : bt2 := with_lazy s None.
+Definition strip (w : world) : world := mkW (strip_bt (bt w)) (fil w) (next w).
+Definition cfg_off (c : cfg) : cfg := mkCfg MOff (c_osz c) (c_ns c).
+Definition lazy_consistent (c : cfg) (w : world) : Prop := is_lazy_enabled (bt w) = lazy_mode (c_mode c).
+
+Lemma setup_mode_lazy m s : is_lazy_enabled s = false -> is_lazy_enabled (setup_mode m s) = lazy_mode m.
+Proof. intro H. destruct m; cbn [setup_mode lazy_mode]; try exact H; reflexivity. Qed.
+
+Lemma strip_setup m s : strip_bt (setup_mode m s) = strip_bt s.
+Proof. destruct m; reflexivity. Qed.
+
+Lemma load_from_strip osz recv f a :
+  match load_from osz recv f a, load_from osz (strip_bt recv) f a with
+  | LOk s1, LOk s2 => strip_bt s1 = s2 /\ s2 = strip_bt s2 /\ lazy s1 = lazy recv
+  | LErr e1, LErr e2 => e1 = e2
+  | _, _ => False
+  end.
+Proof.
+  unfold load_from. destruct (read_at f a (hdr_size osz)) as [hb|]; [|reflexivity].
+  destruct (decode_header osz hb) as [h|e]; [|reflexivity].
+  destruct (negb (h_type h =? 5)); [reflexivity|].
+  destruct (negb (h_depth h =? 0)); [reflexivity|].
+  destruct (0 <? h_nroot h).
+  - destruct (read_at f (h_root h) _) as [lb|]; [|reflexivity].
+    destruct (decode_leaf _ lb) as [[ty rs]|e]; [|reflexivity].
+    repeat split.
+  - repeat split.
+Qed.
+
+Lemma delete_strip m s n : is_lazy_enabled s = lazy_mode m ->
+  let '(s1, ok1) := delete_by_mode m s n in
+  let '(s2, ok2) := delete_record (strip_bt s) n in
+  strip_bt s1 = s2 /\ ok1 = ok2 /\ is_lazy_enabled s1 = lazy_mode m.
+Proof.
+  intro L. destruct s as [ns h lt lr rs lh ll lz].
+  unfold is_lazy_enabled in L. cbn [lazy] in L.
+  destruct m as [| |t d|t d]; cbn [delete_by_mode lazy_mode] in *;
+    unfold delete_record, delete_with_rebalancing, delete_lazy, remove_record, handle_root_depth_decrease,
+           strip_bt, with_lazy, with_recs, is_lazy_enabled;
+    cbn [recs node_size header leaf_type leaf_recs loaded_hdr loaded_leaf lazy].
+  1,2: destruct lz; [discriminate|];
+       destruct (find_index rs (jenkins n) 0); [|repeat split];
+       cbn [header set_counts h_nroot h_depth];
+       destruct (_ && _); repeat split.
+  1,2: destruct lz as [l|]; [|discriminate];
+       destruct (find_index rs (jenkins n) 0); [|repeat split];
+       cbn [header set_counts h_nroot h_depth recs node_size];
+       destruct (_ && _); repeat split.
+Qed.
+
+Lemma step_strip c w o : lazy_consistent c w ->
+  let '(w1, r1) := step c w o in
+  let '(w2, r2) := step (cfg_off c) (strip w) o in
+  strip w1 = w2 /\ r1 = r2 /\ lazy_consistent c w1.
+Proof.
+  intro L. unfold lazy_consistent in *.
+  destruct w as [s f nx]. cbn [bt] in L.
+  destruct o as [n v|n v|n|n|n| |]; cbn [step strip bt fil next cfg_off c_mode c_osz c_ns].
+  - (* insert *)
+    unfold insert_record. cbn [strip_bt with_lazy recs node_size header].
+    destruct (find_index (recs s) (jenkins n) 0); [repeat split; exact L|].
+    destruct (_ <=? _); repeat split; exact L.
+  - (* update *)
+    unfold update_record. cbn [strip_bt with_lazy recs node_size header].
+    destruct (find_index (recs s) (jenkins n) 0); repeat split; exact L.
+  - unfold search_record. cbn [strip_bt with_lazy recs]. repeat split; exact L.
+  - unfold has_key. cbn [strip_bt with_lazy recs]. repeat split; exact L.
+  - (* delete *)
+    pose proof (delete_strip (c_mode c) s n L) as X. cbn [delete_by_mode].
+    destruct (delete_by_mode (c_mode c) s n) as [s1 ok1].
+    destruct (delete_record (strip_bt s) n) as [s2 ok2].
+    destruct X as (X1 & X2 & X3). cbn [with_bt strip bt fil next]. subst. repeat split. exact X3.
+  - (* store + load *)
+    unfold write_to_file. cbn [bt fil next strip_bt with_lazy node_size with_root header leaf_type leaf_recs recs
+                               loaded_hdr loaded_leaf encode_leaf encode_header].
+    unfold reload. cbn [fil c_osz c_ns cfg_off c_mode setup_mode bt].
+    pose proof (load_from_strip (c_osz c) (new_bt (c_ns c))
+      (write_at (write_at f nx (encode_leaf s)) (nx + node_size s)
+         (encode_header (c_osz c) (with_root s nx))) (nx + node_size s)) as X.
+    change (strip_bt (new_bt (c_ns c))) with (new_bt (c_ns c)) in X.
+    unfold encode_leaf, encode_header in X. cbn [with_root header leaf_type leaf_recs] in X.
+    destruct (load_from _ _ _ _) as [s1|e1].
+    + cbn [with_bt strip bt fil next]. destruct X as (X1 & X2 & X3).
+      repeat split.
+      * unfold strip, with_bt. cbn [bt fil next]. rewrite strip_setup, X1. reflexivity.
+      * cbn [bt]. apply setup_mode_lazy. unfold is_lazy_enabled. rewrite X3. reflexivity.
+    + cbn [strip bt fil next strip_bt with_lazy node_size header leaf_type leaf_recs recs loaded_hdr loaded_leaf set_root].
+      repeat split. exact L.
+  - (* rewrite + load *)
+    unfold write_in_place. cbn [strip bt fil next strip_bt with_lazy loaded_hdr loaded_leaf].
+    destruct (loaded_hdr s =? 0); [repeat split; exact L|].
+    unfold reload. cbn [fil c_osz c_ns cfg_off c_mode setup_mode bt with_root loaded_hdr loaded_leaf
+                        node_size header leaf_type leaf_recs recs encode_leaf encode_header].
+    pose proof (load_from_strip (c_osz c) (new_bt (c_ns c))
+      (write_at (write_at f (loaded_leaf s) (encode_leaf s)) (loaded_hdr s)
+         (encode_header (c_osz c) (with_root s (loaded_leaf s)))) (loaded_hdr s)) as X.
+    change (strip_bt (new_bt (c_ns c))) with (new_bt (c_ns c)) in X.
+    unfold encode_leaf, encode_header in X. cbn [with_root header leaf_type leaf_recs] in X.
+    destruct (load_from _ _ _ _) as [s1|e1].
+    + cbn [with_bt strip bt fil next]. destruct X as (X1 & X2 & X3).
+      repeat split.
+      * unfold strip, with_bt. cbn [bt fil next]. rewrite strip_setup, X1. reflexivity.
+      * cbn [bt]. apply setup_mode_lazy. unfold is_lazy_enabled. rewrite X3. reflexivity.
+    + cbn [strip bt fil next strip_bt with_lazy node_size header leaf_type leaf_recs recs loaded_hdr loaded_leaf set_root].
+      repeat split. exact L.
+Qed.
+
+Lemma run_from_strip c ops : forall w, lazy_consistent c w ->
+  strip (fst (run_from c w ops)) = fst (run_from (cfg_off c) (strip w) ops)
+  /\ snd (run_from c w ops) = snd (run_from (cfg_off c) (strip w) ops)
+  /\ lazy_consistent c (fst (run_from c w ops)).
+Proof.
+  induction ops as [|o ops IH]; intros w L; cbn [run_from fst snd]; [repeat split; exact L|].
+  pose proof (step_strip c w o L) as X.
+  destruct (step c w o) as [w1 r1]. destruct (step (cfg_off c) (strip w) o) as [w2 r2].
+  destruct X as (X1 & X2 & X3). subst w2 r2.
+  specialize (IH w1 X3).
+  destruct (run_from c w1 ops) as [w3 rs3]. destruct (run_from (cfg_off c) (strip w1) ops) as [w4 rs4].
+  cbn [fst snd] in *. destruct IH as (I1 & I2 & I3). subst. repeat split. exact I3.
+Qed.
+
+Lemma init_consistent c : lazy_consistent c (init c) /\ strip (init c) = init (cfg_off c).
+Proof.
+  unfold lazy_consistent, init. cbn [bt]. split.
+  - apply setup_mode_lazy. reflexivity.
+  - unfold strip. cbn [bt fil next cfg_off c_mode c_ns setup_mode]. rewrite strip_setup. reflexivity.
+Qed.
+
+(* the observable part of a world: everything except the lazy counters *)
+Theorem mode_irrelevant_strip c ops :
+  strip (fst (run c ops)) = fst (run (cfg_off c) ops) /\ snd (run c ops) = snd (run (cfg_off c) ops).
+Proof.
+  unfold run. destruct (init_consistent c) as [L E].
+  destruct (run_from_strip c ops (init c) L) as (A & B & _). rewrite E in A, B. split; assumption.
+Qed.
+
+Theorem mode_irrelevant m1 m2 osz ns ops :
+  let w1 := fst (run (mkCfg m1 osz ns) ops) in
+  let w2 := fst (run (mkCfg m2 osz ns) ops) in
+  snd (run (mkCfg m1 osz ns) ops) = snd (run (mkCfg m2 osz ns) ops)
+  /\ recs (bt w1) = recs (bt w2) /\ leaf_recs (bt w1) = leaf_recs (bt w2) /\ header (bt w1) = header (bt w2)
+  /\ node_size (bt w1) = node_size (bt w2) /\ fil w1 = fil w2 /\ next w1 = next w2
+  /\ loaded_hdr (bt w1) = loaded_hdr (bt w2) /\ loaded_leaf (bt w1) = loaded_leaf (bt w2).
+Proof.
+  cbv zeta.
+  destruct (mode_irrelevant_strip (mkCfg m1 osz ns) ops) as [A1 B1].
+  destruct (mode_irrelevant_strip (mkCfg m2 osz ns) ops) as [A2 B2].
+  unfold cfg_off in *. cbn [c_osz c_ns] in *.
+  rewrite B1, B2. split; [reflexivity|].
+  assert (E : strip (fst (run (mkCfg m1 osz ns) ops)) = strip (fst (run (mkCfg m2 osz ns) ops)))
+    by (rewrite A1, A2; reflexivity).
+  destruct (fst (run (mkCfg m1 osz ns) ops)) as [[a1 a2 a3 a4 a5 a6 a7 a8] f1 n1].
+  destruct (fst (run (mkCfg m2 osz ns) ops)) as [[b1 b2 b3 b4 b5 b6 b7 b8] f2 n2].
+  unfold strip, strip_bt, with_lazy in E. cbn in E. inversion E; subst. cbn. repeat split.
+Qed.
+
+(* ============================================================================================ *)
+(* 6. invariants of a history (mode off; other modes by mode_irrelevant_strip)                   *)
+
+Definition ns_of (c : cfg) : N := node_size (new_bt (c_ns c)).
+Definition hsz (c : cfg) : N := N.of_nat (hdr_size (c_osz c)).
+Definition lim (c : cfg) : N := 256 ^ N.of_nat (c_osz c).
+Definition cfg_ok (c : cfg) : Prop := osz_ok (c_osz c) /\ cap_ok (ns_of c).
+
+Definition winv (c : cfg) (w : world) : Prop :=
+  let s := bt w in
+  st_wf s /\ node_size s = ns_of c /\ sorted_h (recs s) /\ lazy s = None /\ 64 <= next w /\
+  (loaded_hdr s <> 0 -> loaded_leaf s + ns_of c <= loaded_hdr s /\ loaded_leaf s < lim c).
+
+Lemma to7_length v : List.length (to7 v) = 7%nat.
+Proof. unfold to7. rewrite firstn_length, le_length. reflexivity. Qed.
+
+Lemma with_recs_wf s rs : st_wf s -> Forall rec_wf rs -> N.of_nat (List.length rs) <= max_records (node_size s) ->
+  st_wf (with_recs s rs (N.of_nat (List.length rs)) (N.of_nat (List.length rs))).
+Proof.
+  intros (W1 & W2 & W3 & W4 & W5 & W6 & W7 & W8 & W9 & W10 & W11 & W12 & W13) Hr Hc.
+  unfold st_wf, with_recs, set_counts.
+  cbn [header node_size recs leaf_recs leaf_type h_type h_node_size h_rec_size h_depth h_split h_merge h_nroot h_total].
+  destruct W3 as (C1 & C2 & C3). repeat split; assumption.
+Qed.
+
+Lemma storeload_ok c w : cfg_ok c -> c_mode c = MOff -> winv c w -> next w < lim c ->
+  step c w OStoreLoad =
+  (mkW (mkBT (ns_of c) (set_root (header (bt w)) (next w)) 5 (recs (bt w)) (recs (bt w))
+             (next w + ns_of c) (next w) None)
+       (write_at (write_at (fil w) (next w) (encode_leaf (bt w))) (next w + ns_of c)
+                 (encode_header (c_osz c) (with_root (bt w) (next w))))
+       (next w + ns_of c + hsz c), ROk).
+Proof.
+  intros [Ho Hc] Hm (W & Hn & _ & Hl & _ & _) Hlim.
+  cbn [step]. unfold write_to_file, reload. cbn [bt fil next].
+  rewrite (load_after_store (c_osz c) (bt w) (fil w) (next w) (next w + node_size (bt w)) (new_bt (c_ns c)));
+    try assumption; [|lia].
+  rewrite Hm. cbn [setup_mode with_bt fil next new_bt lazy]. rewrite Hn. reflexivity.
+Qed.
+
+Lemma rewrite_ok c w : cfg_ok c -> c_mode c = MOff -> winv c w -> loaded_hdr (bt w) <> 0 ->
+  step c w ORewrite =
+  (mkW (mkBT (ns_of c) (set_root (header (bt w)) (loaded_leaf (bt w))) 5 (recs (bt w)) (recs (bt w))
+             (loaded_hdr (bt w)) (loaded_leaf (bt w)) None)
+       (write_at (write_at (fil w) (loaded_leaf (bt w)) (encode_leaf (bt w))) (loaded_hdr (bt w))
+                 (encode_header (c_osz c) (with_root (bt w) (loaded_leaf (bt w)))))
+       (next w), ROk).
+Proof.
+  intros [Ho Hc] Hm (W & Hn & _ & Hl & _ & Hld) Hz.
+  destruct (Hld Hz) as [Hd Hlt].
+  cbn [step]. unfold write_in_place.
+  replace (loaded_hdr (bt w) =? 0) with false by (symmetry; apply N.eqb_neq; exact Hz).
+  unfold reload. cbn [bt fil next with_root loaded_hdr].
+  rewrite load_after_store; try assumption; [|rewrite Hn; exact Hd].
+  rewrite Hm. cbn [setup_mode with_bt fil next new_bt lazy]. rewrite Hn. reflexivity.
+Qed.
+
+Lemma rewrite_refused c w : loaded_hdr (bt w) = 0 -> step c w ORewrite = (w, RErr).
+Proof. intro H. cbn [step]. unfold write_in_place. rewrite H. reflexivity. Qed.
